@@ -144,9 +144,24 @@ ConstE(e) ==       \* e simplifies to a constant: no variable, x-x, x/x, 0*x, x*
             \/ e.k = "pow" /\ e.b.k = "num" /\ e.b.n = 0
       [] e.k = "fn" -> ConstE(e.a) /\ (e.f = "MOD" => ConstE(e.b))
       [] OTHER -> FALSE
+IsLit(e, n) == e.k = "num" /\ e.n = n /\ e.d = 1
+RECURSIVE Strip(_)
+Strip(e) ==        \* neutral elements removed: x+0, 0+x, x-0, x*1, 1*x, x/1, x**1
+    CASE e.k \in {"num", "var"} -> e
+      [] e.k = "neg" -> [e EXCEPT !.a = Strip(e.a)]
+      [] e.k \in {"add", "sub", "mul", "div", "pow"} ->
+            LET a == Strip(e.a)
+                b == Strip(e.b)
+            IN IF e.k \in {"add", "sub"} /\ IsLit(b, 0) THEN a
+               ELSE IF e.k = "add" /\ IsLit(a, 0) THEN b
+               ELSE IF e.k \in {"mul", "div", "pow"} /\ IsLit(b, 1) THEN a
+               ELSE IF e.k = "mul" /\ IsLit(a, 1) THEN b
+               ELSE [e EXCEPT !.a = a, !.b = b]
+      [] e.k = "fn" -> IF e.f = "MOD" THEN [e EXCEPT !.a = Strip(e.a), !.b = Strip(e.b)] ELSE [e EXCEPT !.a = Strip(e.a)]
+      [] OTHER -> e
 RECURSIVE Decidable(_)
 Decidable(c) ==
-    CASE c.k = "rel" -> (ConstE(c.a) /\ ConstE(c.b)) \/ c.a = c.b
+    CASE c.k = "rel" -> (ConstE(c.a) /\ ConstE(c.b)) \/ Strip(c.a) = Strip(c.b)
       [] c.k = "not" -> Decidable(c.a)
       [] c.k \in {"and", "or"} -> Decidable(c.a) \/ Decidable(c.b)
       [] OTHER -> FALSE
